@@ -229,6 +229,7 @@ def generate(repo):
             arms, dflt = parse_table(body, fields, n)
             kinds.append((n, 'PTable [%s] %s' % ('; '.join(coq_act(a) for a in arms), coq_act(dflt))))
         nfields.append((n, len(fields)))
+    out.append('Definition all_cmds : list cmd := [' + '; '.join('C' + n for n in names) + '].\n')
     out.append('Definition cmd_parse (c : cmd) : pkind :=\n  match c with\n' + '\n'.join('  | C%s => %s' % kv for kv in kinds) + '\n  end.\n')
     out.append('Definition cmd_nfields (c : cmd) : nat :=\n  match c with\n' + '\n'.join('  | C%s => %d' % kv for kv in nfields) + '\n  end.\n')
     def tabdef(name, t):
@@ -240,10 +241,10 @@ def generate(repo):
     if not m: raise TranslateError('SCREEN_SIZE: ' + norm_text(val))
     out.append('Definition SCREEN_W : Z := %s.\nDefinition SCREEN_H : Z := %s.\n' % (m.group(1), m.group(2)))
     ty, val = bgi.find_const('DEFAULT_USER_PATTERN')
-    out.append('Definition DEFAULT_USER_PATTERN : list N := %s.\n' % coq_list(parse_array(val)))
+    out.append('Definition DEFAULT_USER_PATTERN : list N := (%s)%%N.\n' % coq_list(parse_array(val)))
     ty, val = bgi.find_const('DEFAULT_FILL_PATTERNS')
     if norm_text(ty) != '[ [ u8 ; 8 ] ; 13 ]': raise TranslateError('DEFAULT_FILL_PATTERNS type: ' + norm_text(ty))
-    out.append('Definition DEFAULT_FILL_PATTERNS : list (list N) := [%s].\n' % '; '.join(coq_list(r) for r in parse_array(val)))
+    out.append('Definition DEFAULT_FILL_PATTERNS : list (list N) := [%s]%%N.\n' % '; '.join(coq_list(r) for r in parse_array(val)))
     fs = enum_variants(bgi, 'FillStyle'); wm = enum_variants(bgi, 'WriteMode')
     if wm != ['Copy', 'Xor', 'Or', 'And', 'Not']: raise TranslateError('WriteMode variants: %r' % wm)
     if len(fs) != 13 or fs[1] != 'Solid' or fs[12] != 'User' or fs[0] != 'Empty': raise TranslateError('FillStyle variants: %r' % fs)
